@@ -56,6 +56,9 @@ SPECIAL_TRAITS = {"Display", "Debug", "Hash", "Sum", "Product", "Deref", "DerefM
 IGNORED_TRAITS = {"Copy", "Eq", "StructuralPartialEq", "Send", "Sync", "Unpin", "Freeze", "UnwindSafe", "RefUnwindSafe"}
 
 
+PATHS = {}
+
+
 class Unsupported(Exception):
     pass
 
@@ -154,6 +157,10 @@ def parse_type(j, self_ty, assoc):
     if "resolved_path" in j:
         p = j["resolved_path"]
         name = p["path"].split("::")[-1]
+        # the path is spelled as in the source (`use crate::BVec4 as BVec4A`): resolve by id
+        real = PATHS.get(str(p.get("id")))
+        if real and real.get("crate_id") == 0 and real["path"][-1] in VEC:
+            name = real["path"][-1]
         args = p.get("args")
         if name in VEC and not args:
             return T("glam", name=name)
@@ -480,6 +487,7 @@ def main():
         print("usage: apigen.py <glam.json> <out.rs> <out_api.json> [--all-float]", file=sys.stderr)
         return 2
     doc = json.load(open(sys.argv[1]))
+    PATHS.update(doc.get("paths", {}))
     want = sorted(set(FLOAT_TYPES + PADDED + ["BVec2", "BVec3", "BVec4", "BVec4A"]))
     ops, skipped, specials = build_ops(doc, set(want))
     fns, rows = [], []
